@@ -536,6 +536,9 @@ pub fn mk_cfmws(e: &Value) -> cedt::CxlFixedMemory {
         x => panic!("ways {x}"),
     };
     let mut m = cedt::CxlFixedMemory::new(u64_of(get(a, "base")), u64_of(get(a, "size")), arith, gran(str_of(get(a, "gran"))), ways, u16_of(get(a, "qtg")));
+    for t in list(a, "targets") {
+        m.add_target(arr_n(t)); // targets supplied up front (stand-alone serialisation requires the full list)
+    }
     for c in calls(e) {
         m = match cname(c) {
             "cxl_type_2_memory" => m.cxl_type_2_memory(),
